@@ -81,7 +81,7 @@ let qops s =
     | ["X"; k; v] -> QIdxSet (unhex k, unhex v) | ["C"] -> QClear | ["wc"; _] -> QClear | ["re"; _] | ["rv"; _] -> QIterMut [] | ["t"] -> QRetNE | ["T"; k] -> QRetKeyNe (unhex k)
     | ["M"; s] -> QRetMut (unhex s) | ["I"; s] | ["J"; s] -> QIterMut (unhex s)
     | ["eo"; k; v] -> QEOrIns (unhex k, unhex v) | ["ew"; k; v] -> QEOrInsWith (unhex k, unhex v)
-    | ["em"; k; s; v] -> QEAndMod (unhex k, unhex s, unhex v) | ["ei"; k; v] -> QEInsert (unhex k, unhex v)
+    | ["eC"; k; v] -> QEAndClr (unhex k, unhex v) | ["em"; k; s; v] -> QEAndMod (unhex k, unhex s, unhex v) | ["ei"; k; v] -> QEInsert (unhex k, unhex v)
     | ["er"; k] -> QERemove (unhex k) | ["eR"; k] -> QERemoveEntry (unhex k) | ["eG"; k; s] -> QEGetMut (unhex k, unhex s)
     | ["l"] -> QLen | ["tr"; u] -> QTRepo (unhex u) | ["tg"] -> QTGet | ["tc"] -> QTHas | ["td"] -> QTDel
     | ["tC"; c] -> QTCs (csops c) | ["tG"] -> QTCsGet | ["ke"; s] -> QKeyCmp (unhex s)
